@@ -399,13 +399,14 @@ type c14KeyStat struct {
 }
 
 type c14GenOut struct {
-	Patterns   int                      `json:"patterns"`
-	Pairs      int                      `json:"pairs"`
-	Calls      int                      `json:"calls"`
-	Matching   int                      `json:"calls_with_reference_match"`
-	Mismatches int                      `json:"mismatches"`
-	Keys       map[string]*c14KeyStat   `json:"keys"`
-	Samples    []map[string]interface{} `json:"samples"`
+	Patterns   int                       `json:"patterns"`
+	Pairs      int                       `json:"pairs"`
+	Calls      int                       `json:"calls"`
+	Matching   int                       `json:"calls_with_reference_match"`
+	Mismatches int                       `json:"mismatches"`
+	Keys       map[string]*c14KeyStat    `json:"keys"`
+	Samples    []map[string]interface{}  `json:"samples"`
+	ByPattern  map[string]map[string]int `json:"rejected_patterns_by_key"` // key -> pattern -> count
 }
 
 func (o *c14GenOut) merge(b *c14GenOut) {
@@ -427,6 +428,17 @@ func (o *c14GenOut) merge(b *c14GenOut) {
 	}
 	for _, s := range b.Samples {
 		o.Samples = c14KeepSmallest(o.Samples, s, 6)
+	}
+	for k, m := range b.ByPattern {
+		if o.ByPattern == nil {
+			o.ByPattern = map[string]map[string]int{}
+		}
+		if o.ByPattern[k] == nil {
+			o.ByPattern[k] = map[string]int{}
+		}
+		for p, n := range m {
+			o.ByPattern[k][p] += n
+		}
 	}
 }
 
@@ -456,6 +468,15 @@ func (o *c14GenOut) addEx(key string, rec map[string]interface{}) {
 		o.Keys[key] = t
 	}
 	t.N++
+	if o.ByPattern == nil {
+		o.ByPattern = map[string]map[string]int{}
+	}
+	if o.ByPattern[key] == nil {
+		o.ByPattern[key] = map[string]int{}
+	}
+	if bp := o.ByPattern[key]; len(bp) < 2000 {
+		bp[string(c14Bytes(rec["p"]))]++
+	}
 	if len(t.Ex) < 3 || c14RecLess(rec, t.Ex[len(t.Ex)-1]) {
 		t.Ex = c14KeepSmallest(t.Ex, rec, 3)
 	}
@@ -512,7 +533,7 @@ func (e *c14Env) genPattern(h *c14Hdr, g *c14GenLine, out *c14GenOut) {
 			exp = []interface{}{"err"} // an error (or no match) is what is expected
 		}
 		rec["feat"] = c14FeatList(p)
-		out.addEx(c14Classify(rec, exp, obs), rec)
+		out.addEx(c14Classify(e, rec, exp, obs), rec)
 	}
 	for j, sj := range h.Subjects {
 		s := c14Bytes(sj)
@@ -634,7 +655,10 @@ func c14Gen(args []string) int {
 
 // ---- narrow case keys ---------------------------------------------------------
 // Static features of a pattern (item structure as lstrlib's classEnd sees it).
-func c14Feat(p []byte) map[string]bool {
+func c14Feat(p []byte) map[string]bool { return c14FeatF(p, nil) }
+
+// keep (optional) selects the bracket sets whose features are reported
+func c14FeatF(p []byte, keep func(set []byte) bool) map[string]bool {
 	ft := map[string]bool{}
 	at := func(i int) byte {
 		if i < len(p) {
@@ -718,7 +742,13 @@ func c14Feat(p []byte) map[string]bool {
 				}
 			}
 			prev := ""
-			for q < ec {
+			end := ec + 1
+			if end > len(p) {
+				end = len(p)
+			}
+			// a set that lstrlib sees as unterminated is always reported
+			use := keep == nil || ec >= len(p) || keep(p[i:end])
+			for use && q < ec {
 				if p[q] == '%' {
 					q += 2
 					prev = "class"
@@ -756,10 +786,17 @@ func c14Feat(p []byte) map[string]bool {
 	return ft
 }
 
-func c14Classify(rec map[string]interface{}, exp, obs []interface{}) string {
+func c14Classify(e *c14Env, rec map[string]interface{}, exp, obs []interface{}) string {
 	fn := rec["fn"].(string)
 	p, s := c14Bytes(rec["p"]), c14Bytes(rec["s"])
 	ft := c14Feat(p)
+	if e != nil && (ft["set-dash-after-class"] || ft["set-dash-after-range"] || ft["set-range-end-escape"] || ft["set-range-end-dash"]) {
+		// name only the shapes of the sets the real code really treats differently
+		only := c14FeatF(p, e.setDiffers)
+		for _, k := range []string{"set-dash-after-class", "set-dash-after-range", "set-range-end-escape", "set-range-end-dash"} {
+			ft[k] = only[k]
+		}
+	}
 	ok, _ := obs[0].(string)
 	ek, _ := exp[0].(string)
 	num := func(x interface{}) (int, bool) {
@@ -884,6 +921,7 @@ func c14Key(args []string) int {
 	}
 	w := bufio.NewWriter(os.Stdout)
 	defer w.Flush()
+	env := newC14Env()
 	for _, l := range bytes.Split(data, []byte("\n")) {
 		if len(bytes.TrimSpace(l)) == 0 {
 			continue
@@ -892,7 +930,7 @@ func c14Key(args []string) int {
 		if err := json.Unmarshal(l, &c); err != nil {
 			panic(err)
 		}
-		key := c14Classify(c, c["exp"].([]interface{}), c["o"].([]interface{}))
+		key := c14Classify(env, c, c["exp"].([]interface{}), c["o"].([]interface{}))
 		b, _ := json.Marshal(map[string]interface{}{"id": c["id"], "key": key, "feat": c14FeatList(c14Bytes(c["p"]))})
 		w.Write(b)
 		w.WriteByte('\n')
@@ -960,4 +998,89 @@ func c14Stress(args []string) int {
 		enc.Encode(r)
 	}
 	return 0
+}
+
+// ---- attribution of a rejected case to one bracket set (keys only) ------------
+// Membership of byte c in the set "[...]" as lstrlib's matchbracketclass decides
+// it.  Used only to find out WHICH set of a pattern the real code treats
+// differently, so that the case key names that set's shape; verdicts never
+// depend on it.
+func c14RefClass(c, cl byte) bool {
+	in := func(lo, hi byte) bool { return c >= lo && c <= hi }
+	lc := cl
+	if cl >= 'A' && cl <= 'Z' {
+		lc = cl + 32
+	}
+	var r bool
+	switch lc {
+	case 'a':
+		r = in('a', 'z') || in('A', 'Z')
+	case 'c':
+		r = c < 32 || c == 127
+	case 'd':
+		r = in('0', '9')
+	case 'l':
+		r = in('a', 'z')
+	case 'p':
+		r = in(33, 47) || in(58, 64) || in(91, 96) || in(123, 126)
+	case 's':
+		r = in(9, 13) || c == 32
+	case 'u':
+		r = in('A', 'Z')
+	case 'w':
+		r = in('a', 'z') || in('A', 'Z') || in('0', '9')
+	case 'x':
+		r = in('0', '9') || in('a', 'f') || in('A', 'F')
+	case 'z':
+		r = c == 0
+	default:
+		return cl == c
+	}
+	if cl >= 'a' && cl <= 'z' {
+		return r
+	}
+	return !r
+}
+
+func c14RefSet(set []byte, c byte) bool {
+	ec := len(set) - 1
+	sig := true
+	q := 1
+	if ec >= 1 && set[1] == '^' {
+		sig = false
+		q = 2
+	}
+	for ; q < ec; q++ {
+		if set[q] == '%' {
+			q++
+			if q <= ec && c14RefClass(c, set[q]) {
+				return sig
+			}
+		} else if q+1 <= ec && set[q+1] == '-' && q+2 < ec {
+			q += 2
+			if set[q-2] <= c && c <= set[q] {
+				return sig
+			}
+		} else if set[q] == c {
+			return sig
+		}
+	}
+	return !sig
+}
+
+// true iff the real matcher's membership for the set differs from lstrlib's
+func (e *c14Env) setDiffers(set []byte) bool {
+	if len(set) < 3 || set[len(set)-1] != ']' {
+		return true
+	}
+	for c := 0; c < 256; c++ {
+		o := e.runFind([]byte{byte(c)}, set, nil)
+		if o[0] != "m" && o[0] != "nil" {
+			return true
+		}
+		if (o[0] == "m") != c14RefSet(set, byte(c)) {
+			return true
+		}
+	}
+	return false
 }
